@@ -217,7 +217,7 @@ META["C12"] = {
              "Optimize): infeasible with margin -> ValueError, unbounded -> None, else value within 1e-6 relative. "
              "Non-trivial = the truth is not in the thin-infeasibility band; distinct = case digests."),
     "required": ["events:optimize", "events:get_variable_bounds", "truth:finite", "truth:unbounded",
-                 "truth:infeasible", "core_cases"],
+                 "truth:infeasible", "core_cases", "agree:finite", "agree:unbounded", "agree:infeasible"],
     "assumptions": [TB, "systems that are infeasible but become feasible when relaxed by 1e-3 are not judged"],
     "soft_s": {"quick": 900, "thorough": 3000},
 }
@@ -403,7 +403,8 @@ META["C11"] = {
     "required": ["membership:on:True", "membership:inside:True", "membership:outside:False",
                  "membership:missing:missing-var", "membership:extra:True", "evaluate:returned", "evaluate:ValueError",
                  "emptiness:gap:empty", "emptiness:gap:nonempty", "emptiness:gap:band", "emptiness:feasible:nonempty",
-                 "consistency:refines=True:inL=True:inR=True"],
+                 "consistency:refines=True:inL=True:inR=True", "agree:membership:True", "agree:membership:False",
+                 "agree:emptiness:empty", "agree:emptiness:nonempty"],
     "assumptions": [TB, "dyadic data so that pacti's float evaluation is exact"],
     "soft_s": {"quick": 900, "thorough": 2500},
 }
@@ -452,7 +453,7 @@ META["C17"] = {
                  "disjointness:overlapping:overlap=True:ValueError", "disjointness:subsets:overlap=True:ValueError",
                  "membership:True", "membership:False",
                  "le:answer=True:counterexample=unsat", "le:answer=False:counterexample=sat", "merge:returned",
-                 "merge:result-alternatives"],
+                 "merge:result-alternatives", "agree:membership:True", "agree:membership:False"],
     "assumptions": [NUM, TB],
     "soft_s": {"quick": 900, "thorough": 2500},
 }
